@@ -1,13 +1,23 @@
-use crate::core::{Run, Src, Verdict};
+use crate::core::{CaseOut, Run, Verdict};
 
+pub mod c06;
 pub mod c08;
 
 pub fn run(run: &Run) -> bool {
 	match run.prop.as_str() {
+		"C06" => c06::run(run),
 		"C08" => c08::run(run),
 		_ => return false,
 	}
 	true
+}
+
+fn replay_case(run: &Run, prop: &str, stage: &str, tape: Option<&[u16]>, v: &serde_json::Value) -> Option<CaseOut> {
+	match prop {
+		"C06" => c06::replay(run, stage, tape, v),
+		"C08" => c08::replay(run, stage, tape, v),
+		_ => None,
+	}
 }
 
 /// re-decide one saved case without any random generation
@@ -21,11 +31,7 @@ pub fn replay(path: &str) -> i32 {
 	let stage = v["stage"].as_str().unwrap_or("");
 	let tape: Option<Vec<u16>> = v["tape"].as_array().map(|a| a.iter().map(|x| x.as_u64().unwrap_or(0) as u16).collect());
 	let run = Run::new(prop, crate::core::Tier::Quick, v["seed"].as_u64().unwrap_or(1));
-	let out = match prop {
-		"C08" => c08::replay(&run, stage, tape.as_deref(), &v),
-		_ => None,
-	};
-	let Some(out) = out else {
+	let Some(out) = replay_case(&run, prop, stage, tape.as_deref(), &v) else {
 		eprintln!("no replay routine for {prop}/{stage}");
 		return 2;
 	};
@@ -49,9 +55,4 @@ pub fn replay(path: &str) -> i32 {
 			0
 		}
 	}
-}
-
-#[allow(dead_code)]
-pub fn tape_src(tape: &[u16]) -> Src<'_> {
-	Src::new(tape)
 }
